@@ -1,5 +1,5 @@
 # replay of a bounded stand-in violation: re-run native/c01_backends.py
 import sys
-print('fock: Fock(3) | q[0], LossChannel(0.3) at cutoff 4: trace = 0.657000 although nothing is truncated')
+print("MeasureHeterodyne(0.2, -0.3) | q[2] of 3 on gaussian: ('quad', 0, 0.0) = [0.0551, 0.7262], the documented action gives [0.0579, 0.7263]")
 print('REPLAY-VIOLATION')
 sys.exit(1)
